@@ -23,10 +23,20 @@ class SymNS:
         self.inputs = {}
 
     # -- inputs
-    def input(self, name, dims, dtype="float64"):
+    def input(self, name, dims, dtype="float64", nonneg=False):
         t = G.sym_input(name, dims, dtype)
         self.inputs[name] = t
+        if nonneg:
+            X.NONNEG_INPUTS.add(name)
+        else:
+            X.NONNEG_INPUTS.discard(name)
         return t
+
+    def is_nonneg(self, t):
+        """entrywise >= 0 in the float-robust sign domain (non-negative by construction)"""
+        if t is None:
+            return True
+        return X.sign_nonneg(G.lift(t).body)
 
     def int_input(self, name, dims, high):
         """symbolic integer-valued input with values in [0, high)"""
@@ -207,7 +217,13 @@ class NumNS:
     def _c(self, s):
         return builtins.int(SInt.lift(s).subs(self.env))
 
-    def input(self, name, dims, dtype="float64"):
+    def is_nonneg(self, t):
+        if t is None:
+            return True
+        a = np.asarray(t, dtype=float)
+        return bool(np.all(a >= 0)) and bool(np.all(np.isfinite(a)))
+
+    def input(self, name, dims, dtype="float64", nonneg=False):
         shape = []
         for d in dims:
             grp = d if isinstance(d, (list, tuple)) else [d]
@@ -215,6 +231,8 @@ class NumNS:
         a = self.rng.standard_normal(shape)
         # odd seeds draw small-norm data, multiples of 4 large-norm data (defects that depend on ||X|| vs 1 need this)
         a = a * getattr(self, "scale", 1.0)
+        if nonneg:
+            a = np.abs(a)
         if str(dtype).startswith("complex"):
             a = a + 1j * self.rng.standard_normal(shape)
         a = a.astype(dtype)
